@@ -543,12 +543,21 @@ pub fn generate(r: &mut Rng, opts: &GenOpts) -> Universe {
                 if !candidates.is_empty() {
                     // providers serve several zones: reuse a host another zone
                     // already names, when there is one
-                    let reusable: Vec<String> = shared_hosts
+                    let mut reusable: Vec<String> = shared_hosts
                         .iter()
                         .filter(|(_, j)| candidates.contains(j))
                         .map(|(h, _)| h.clone())
                         .filter(|h| !zone.ns.contains(h))
                         .collect();
+                    // ... or another zone's own (glued) name server: then the
+                    // parent's referral carries glue for the very name asked
+                    for j in &candidates {
+                        for h in &u.zones[*j].ns {
+                            if under(h, &u.zones[*j].apex) && !zone.ns.contains(h) && !reusable.contains(h) {
+                                reusable.push(h.clone());
+                            }
+                        }
+                    }
                     if !reusable.is_empty() && r.chance(0.5) {
                         zone.ns.push(r.pick(&reusable).clone());
                         continue;
